@@ -1,0 +1,28 @@
+//go:build verif && !windows
+
+package localfs
+
+import (
+	"os"
+	"syscall"
+	"time"
+)
+
+type verifFileInfo struct{ st syscall.Stat_t }
+
+func (verifFileInfo) Name() string       { return "verif" }
+func (verifFileInfo) Size() int64        { return 0 }
+func (verifFileInfo) Mode() os.FileMode  { return 0 }
+func (verifFileInfo) ModTime() time.Time { return time.Time{} }
+func (verifFileInfo) IsDir() bool        { return false }
+func (v verifFileInfo) Sys() any         { return &v.st }
+
+// VerifQIDPath evaluates the QID path mapping on an arbitrary (device, inode)
+// pair (real files rarely have numbers outside the compact encoding). It
+// exists only under the verif build tag.
+func VerifQIDPath(dev, ino uint64) (uint64, error) {
+	var fi verifFileInfo
+	fi.st.Dev = dev
+	fi.st.Ino = ino
+	return localToQid("", fi)
+}
